@@ -354,11 +354,12 @@ class Gen:
                                          sha256=hashlib.sha256(text[it['start']:it['end']].encode()).hexdigest()))
 
     def clause_lines(self, fnname, kind, lines, props):
-        """register ledger entries for annotation lines; returns text to insert"""
+        """register ledger entries for annotation lines; returns text to insert.
+        A clause may span several lines: it ends at a line whose code part ends with ','."""
         out = []
         self._last_tls = []
         sect = kind
-        n = 0
+        cur = None          # open (unterminated) clause entry
         for (ln, tl) in lines:
             s = ln.strip()
             if not s:
@@ -368,16 +369,30 @@ class Gen:
             bare = s.rstrip(',')
             if bare in ('requires', 'ensures', 'invariant', 'invariant_except_break', 'decreases', 'recommends'):
                 sect = bare
+                cur = None
                 continue
             if s.startswith('//'):
                 continue
             m = re.search(r'//\s*@ob\s+(\S+)(?:\s+(.*))?$', s)
-            if m or sect in ('ensures', 'invariant', 'invariant_except_break', 'decreases'):
-                n += 1
-                label = m.group(1) if m else '%s.%s#%d' % (fnname, sect, n)
+            code = re.sub(r'//.*$', '', s).strip()
+            counted = sect in ('ensures', 'invariant', 'invariant_except_break', 'decreases') or (m and sect != 'requires')
+            depth_delta = sum(code.count(c) for c in '([{') - sum(code.count(c) for c in ')]}')
+            if cur is not None:
+                cur['depth'] += depth_delta
+                cur['tmpl_lines'].append(tl)
+                cur['text'] = (cur['text'] + ' ' + code)[:400]
+                if m:
+                    cur['label'] = m.group(1)
+                    if m.group(2):
+                        cur['props'] = m.group(2).split()
+            elif counted or (m and sect == 'ghost'):
+                self._clause_n = getattr(self, '_clause_n', 0) + 1
+                label = m.group(1) if m else '%s.%s#%d' % (fnname, sect, self._clause_n)
                 p = m.group(2).split() if (m and m.group(2)) else props
-                if sect != 'requires':
-                    self.ledger.append(dict(fn=fnname, label=label, kind=sect, props=p, text=s, tmpl_line=tl))
+                cur = dict(fn=fnname, label=label, kind=sect, props=p, text=code, tmpl_line=tl, tmpl_lines=[tl], depth=depth_delta)
+                self.ledger.append(cur)
+            if cur is not None and (sect == 'ghost' or (cur['depth'] <= 0 and (code.endswith(',') or code.endswith(';') or code.endswith('}')))):
+                cur = None
         return out
 
     def do_fn(self, spec):
